@@ -14,7 +14,7 @@ for d in sorted(glob.glob(os.path.join(here, 'seeded', '*'))):
     name = os.path.basename(d)
     if not os.path.isdir(d) or (args and name not in args):
         continue
-    harmless = name.startswith('harmless')
+    harmless = name.startswith(('harmless', 'borderline'))
     meta = json.load(open(os.path.join(d, 'meta.json'))) if os.path.exists(os.path.join(d, 'meta.json')) else {}
     target = meta.get('breaks_property') or name.split('-')[0]
     sh('git -C %s checkout -- .' % MUT)
@@ -32,8 +32,10 @@ for d in sorted(glob.glob(os.path.join(here, 'seeded', '*'))):
             res.append((p, r.returncode, v))
         if harmless:
             al = [p for p, rc, v in res if rc != 0]
-            ok = not al
-            print(name, 'silent' if ok else 'ALARMS %s' % al, '%.0fs' % (time.time() - t0), flush=True)
+            claimed = [p for p, rc, v in res if rc != 0 and v and 'no-failing-input-found' not in v[0]]
+            exp = meta.get('expected_alarms', [])
+            ok = sorted(al) == sorted(exp) and not claimed
+            print(name, 'silent' if not al else ('alarms %s (expected, no failing input claimed)' % al if ok else 'ALARMS %s, failing input claimed by %s' % (al, claimed)), '%.0fs' % (time.time() - t0), flush=True)
         else:
             p, rc, v = res[0]
             ok = rc == 1 and v and 'no-failing-input-found' not in v[0]
